@@ -84,8 +84,19 @@ Proof.
   - replace 1 with (r / r) by (field; lra). apply div_le_compat_pos; [exact Hr|lra].
 Qed.
 
-(* the docstring says "Reverse: r - D"; the code divides by r *)
-Lemma sim_reverse_is_not_documented_formula : exists D r, sim_reverse D r <> r - D.
+(* the formulas the docstrings state (regenerated from the docstring lines "- Label: formula") are the formulas the
+   code computes (regenerated from the assignments).  The docstring used to say "Reverse: r - D" while the code divides
+   by r (former finding F13b, repaired in /repo): r - D is a different function. *)
+Lemma documented_formulas_are_computed :
+  (forall D r, doc_exponential D r = sim_exponential D r) /\
+  (forall D r, doc_gaussian D r = sim_gaussian D r) /\
+  (forall D r a, doc_reciprocal D r a = sim_reciprocal D r a) /\
+  (forall D r, doc_reverse D r = sim_reverse D r) /\
+  (forall X r x0, doc_squash_gaussian X r x0 = squash_gaussian X r x0) /\
+  (forall X r x0, doc_squash_exponential X r x0 = squash_exponential X r x0).
+Proof. repeat split; intros; reflexivity. Qed.
+
+Lemma sim_reverse_is_not_r_minus_D : exists D r, sim_reverse D r <> r - D.
 Proof. exists 0, 2. unfold sim_reverse. intros H. assert (E : (2 - 0) / 2 = 1) by (field). lra. Qed.
 
 (* ------------------------------------------------------------ squashing *)
